@@ -698,6 +698,10 @@ def _run_s(shard: dict[str, Any], run: Any) -> None:
     arg = {"jobs": shard["jobs"], "chunk": shard["chunk"], "of": shard["of"]}
     per_seed: dict[int, list[list[str]]] = {}
     for seed in shard["seeds"]:
+        if run.out_of_time():
+            if len(per_seed) < 2:
+                return
+            break  # compare the seeds evaluated so far
         try:
             per_seed[seed] = run_child("bounded.C13", "child_eval", arg, seed)
         except Exception as err:  # pylint: disable=broad-except
